@@ -65,6 +65,19 @@ def handwritten():
         ('label', 'a'), ('if', 0, [('data', '.4byte', [C(1)]), ('label', 'ghost')], [('instr', 'nop', None)]),
         ('if', 1, [('data', '.2byte', [L('z')])], [('data', '.8byte', [C(2)])]), ('label', 'z'),
         ('data', '.byte', [('lsb', L('z'))])], consts=()))
+    # directives that sit in an unselected branch do not intervene: no zone switch, no origin, no alignment, no fill
+    S.append(mk('hw:cond-excluded-directives', [
+        ('memzone', 'ZA'), ('label', 'a'), ('data', '.byte', [C(1)]),
+        ('if', 1, [('memzone', 'ZA')], [('memzone', 'ZB')]), ('label', 'b'), ('data', '.2byte', [L('a'), L('b')]),
+        ('if', 0, [('org', C(8), 'ZB')], [('instr', 'nop', None)]), ('label', 'c'), ('data', '.2byte', [L('c')]),
+        ('if', 0, [('align', C(16)), ('fill', C(3), C(9)), ('zero', C(2))], None), ('label', 'd'), ('instr', 'ld16', L('d')),
+        ('if', ('def', 'NOPE'), [('memzone', 'GLOBAL')], None), ('label', 'e'), ('data', '.2byte', [L('e')]),
+        ('if', 0, [('org', V('v1'), None)], [('memzone', 'ZB')]), ('label', 'f'), ('data', '.2byte', [L('f'), L('d')])],
+        consts=('v1',), zones={'ZA': (Sym('zas', 0x2000, 0x20ff), Sym('zae', 0x2100, 0x2fff)), 'ZB': (0x4000, 0x40ff)}))
+    S.append(mk('hw:cond-selected-directives', [
+        ('label', 'a'), ('instr', 'nop', None), ('if', 1, [('org', ('+', V('v1'), C(0x2000)), None)], [('align', C(64))]),
+        ('label', 'b'), ('data', '.2byte', [L('a'), L('b')]), ('if', 0, [('zero', C(5))], [('align', C(8)), ('fill', V('n'), C(1))]),
+        ('label', 'c'), ('data', '.2byte', [L('c')])], consts=('v1', 'n')))
     S.append(mk('hw:zones', [
         ('instr', 'nop', None), ('memzone', 'ZA'), ('label', 'za1'), ('data', '.byte', [C(1), C(2)]), ('memzone', 'GLOBAL'),
         ('label', 'g1'), ('instr', 'nop', None), ('memzone', 'ZA'), ('label', 'za2'), ('data', '.2byte', [L('za1'), L('g1')]),
@@ -85,7 +98,7 @@ def fix_zerountil(shapes):
     return shapes
 
 
-def random_program(rnd, n_stmts, sym_page=False):
+def random_program(rnd, n_stmts, sym_page=False, rich_branches=True):
     prog, labels, pending_refs = [], [], []
     nlab = 0
     all_labels = [f'l{i}' for i in range(n_stmts)]
@@ -130,8 +143,19 @@ def random_program(rnd, n_stmts, sym_page=False):
             prog.append(('unmute',) if muted else ('mute',))
             muted = not muted
         elif k == 'if':
-            prog.append(('if', rnd.choice([0, 1]), [('data', '.2byte', [operand()])],
-                         rnd.choice([None, [('instr', 'nop', None)]])))
+            def branch():
+                r = rnd.random() if rich_branches else 0.0
+                if r < 0.4:
+                    return [('data', '.2byte', [operand()])]
+                if r < 0.55:
+                    return [('instr', 'nop', None)]
+                if r < 0.7:
+                    used_syms.add('v1')
+                    return [('org', ('+', V('v1'), C(0x3400 + 0x400 * rnd.randint(0, 1))), None)]
+                if r < 0.85:
+                    return [('align', rnd.choice([C(4), C(16), C(3)])), ('data', '.byte', [C(5)])]
+                return [('zero', C(rnd.randint(0, 3)))]
+            prog.append(('if', rnd.choice([0, 1]), branch(), rnd.choice([None, branch()])))
         elif k == 'const':
             used_syms.add('v2')
             name = f'k{i}'
